@@ -127,6 +127,7 @@ type c03World struct {
 	script    func(c *simfs.Call)
 	nops      int
 	nerr      int
+	closing   int // Close calls running in tasks of their own
 }
 
 func (w *c03World) find(oracle, key, format string, args ...interface{}) {
@@ -212,6 +213,9 @@ func (w *c03World) onHandle(what string, c *simfs.Call, f p9.File, err error) {
 		// asked is an answer the File never gave.
 		if err == nil {
 			w.find("not-forwarded", what, "%s returned success to the caller but never reached the backend", what)
+		} else if errnoOf(err) == EBADF && w.errFor == "" {
+			// the server does not know the fid of a handle the client holds
+			w.find("handle-lost", what, "%s on a live client handle was refused with EBADF: the server has no such fid any more", what)
 		}
 		return
 	}
@@ -234,7 +238,24 @@ func (w *c03World) op(files *[]p9.File) {
 	f := (*files)[g.ch(len(*files))]
 	mark := len(fs.Calls)
 	calls := func() []*simfs.Call { return fs.Calls[mark:] }
-	switch g.ch(24) {
+	sel := g.ch(25)
+	if sel == 24 {
+		// Close one of the handles in a task of its own while the calls
+		// below go on: the handles they produce are theirs, whatever fid
+		// numbers the client recycles meanwhile.
+		if len(*files) > 1 {
+			i := 1 + g.ch(len(*files)-1)
+			cf := (*files)[i]
+			*files = append(append([]p9.File{}, (*files)[:i]...), (*files)[i+1:]...)
+			w.closing++
+			simrt.GoNamed("closer", func() {
+				cf.Close()
+				w.closing--
+			})
+		}
+		return
+	}
+	switch sel {
 	case 0:
 		mask := g.mask()
 		sq, sv, sa := g.qid(), g.mask(), g.attr()
@@ -560,7 +581,8 @@ func (w *c03World) op(files *[]p9.File) {
 		}
 	case 20:
 		name := "user." + g.name()
-		sv := nbytes(uint64(g.ch(1000)), []int{0, 1, 100, 5000}[g.ch(4)])
+		// (the largest values take several messages at any msize used here)
+		sv := nbytes(uint64(g.ch(1000)), []int{0, 1, 100, 5000, 40000, 70001}[g.ch(6)])
 		be := w.arm("GetXattr", false, func(c *simfs.Call) { c.RData = sv })
 		_ = be
 		v, err := f.GetXattr(name)
@@ -569,6 +591,9 @@ func (w *c03World) op(files *[]p9.File) {
 		if c != nil {
 			if c.Name != name {
 				w.find("wrong-args", "GetXattr", "GetXattr(%q) reached the backend as %q", trunc(name, 30), trunc(c.Name, 30))
+			}
+			if len(sv) >= 40000 && err == nil {
+				w.rcx.Count("getxattr.values_of_40000_bytes_and_more", 1)
 			}
 			if w.errCheck("GetXattr", err, cerr(c)) && !bytes.Equal(v, sv) {
 				w.find("wrong-result", "GetXattr", "backend returned %d bytes, caller got %d", len(sv), len(v))
@@ -682,6 +707,7 @@ func runC03Like(rcx *RunCtx, prop string, extreme bool) {
 		for i := 0; i < nops && len(rcx.Findings) == 0; i++ {
 			w.op(&files)
 		}
+		simrt.Block("closers done", func() bool { return w.closing == 0 })
 		// only message types the negotiated version defines
 		for _, fr := range e.CliMon.Req.Frames {
 			if !typeAllowedAt(fr.Type, uint32(ver)) {
@@ -705,7 +731,7 @@ func init() {
 		Desc: "client/server transparency of every File operation at every version (real client <-> real server, scripted backend)",
 		Run:  func(rcx *RunCtx) { runC03Like(rcx, "C03", rcx.Plan.Choose(2) == 1) },
 		Quick: 48000, Thorough: 3000000, QuickSecs: 60, ThorSecs: 1500,
-		Rule:  fmt.Sprintf("versions 0..7 in rotation (forced through a frame relay that rewrites the Tversion string), 10-50 client calls per run over all File methods (GetAttr, SetAttr, Walk 0-3 components, WalkGetAttr, Open, ReadAt, WriteAt, Readdir, Readlink, StatFS, FSync, Create, Mkdir, Symlink, Mknod, Link, Rename, RenameAt, UnlinkAt, Lock, GetXattr, ListXattrs, SetXattr/RemoveXattr) with generated arguments (half of the runs boundary-biased: 0, 2^k+-1, max, sentinels, names with NUL/high bytes/255/4000 bytes) against a backend whose results are scripted by the generator (QIDs, masks, attrs, stats, strings, lock status, dirents) and whose calls fail 1/3 of the time with one of %d error shapes (linux.Errno, syscall.Errno, os.Err*, *PathError/*LinkError/*SyscallError, %%w chains, errors.Join, opaque, io.EOF for reads/listings); handles from attach (5 attach names), walk, create, clone. Oracle: backend call log — the right method on the handle the client File was derived from, arguments equal modulo the documented rewrites (07777, uid/gid dropped below version 3, one component per walk, Rename/Remove as RenameAt/UnlinkAt on the parent under the current name); returned values equal the scripted ones; errors = the errno in the chain, else the os.Err* mapping, else EIO; wire: only message types of the negotiated version, every frame laid out per spec. Input/configuration property.", len(c03Errors)),
+		Rule:  fmt.Sprintf("versions 0..7 in rotation (forced through a frame relay that rewrites the Tversion string), 10-50 client calls per run over all File methods (GetAttr, SetAttr, Walk 0-3 components, WalkGetAttr, Open, ReadAt, WriteAt, Readdir, Readlink, StatFS, FSync, Create, Mkdir, Symlink, Mknod, Link, Rename, RenameAt, UnlinkAt, Lock, GetXattr, ListXattrs, SetXattr/RemoveXattr; now and then a Close of an earlier handle runs concurrently in a task of its own) with generated arguments (half of the runs boundary-biased: 0, 2^k+-1, max, sentinels, names with NUL/high bytes/255/4000 bytes) against a backend whose results are scripted by the generator (QIDs, masks, attrs, stats, strings, lock status, dirents) and whose calls fail 1/3 of the time with one of %d error shapes (linux.Errno, syscall.Errno, os.Err*, *PathError/*LinkError/*SyscallError, %%w chains, errors.Join, opaque, io.EOF for reads/listings); handles from attach (5 attach names), walk, create, clone. Oracle: backend call log — the right method on the handle the client File was derived from, arguments equal modulo the documented rewrites (07777, uid/gid dropped below version 3, one component per walk, Rename/Remove as RenameAt/UnlinkAt on the parent under the current name); returned values equal the scripted ones; errors = the errno in the chain, else the os.Err* mapping, else EIO; wire: only message types of the negotiated version, every frame laid out per spec. Input/configuration property.", len(c03Errors)),
 		Real:   []string{"p9.Client", "p9 client files", "p9.Server", "p9 handlers", "p9 wire codec", "linux.ExtractErrno"},
 		Stub:   []string{"transport (simnet pipes + frame relay)", "backend tree (simfs, scripted results)"},
 		Owns:   []string{"C01"},
